@@ -521,3 +521,5 @@ func (w *lcWorker) bulkPrefix(layout string) error {
 	w.root = &lcNode{S: st}
 	return nil
 }
+
+func (w *lcWorker) ProviderForTier2() *env.Provider { return w.p }
